@@ -124,11 +124,28 @@ where
         actual.len()
     );
 
-    for (i, ((ak, av), (ek, ev))) in actual.iter().zip(expected.iter()).enumerate() {
-        assert!(
-            !(ak != ek || av != ev),
-            "Collection mismatch at index {i} after sorting:\n  Expected: ({ek:?}, {ev:?})\n  Actual: ({ak:?}, {av:?})\n  Full expected: {expected:?}\n  Full actual: {actual:?}"
-        );
+    // Rows sharing a key may come in any order: match them as a multiset within each key run.
+    let mut start = 0usize;
+    while start < actual.len() {
+        let mut end = start + 1;
+        while end < actual.len() && actual[end].0 == actual[start].0 {
+            end += 1;
+        }
+        let mut used = vec![false; end - start];
+        for i in start..end {
+            let (ak, av) = &actual[i];
+            let (ek, ev) = &expected[i];
+            let found = expected[start..end]
+                .iter()
+                .enumerate()
+                .position(|(o, (k, v))| !used[o] && k == ak && v == av);
+            assert!(
+                found.is_some(),
+                "Collection mismatch at index {i} after sorting:\n  Expected: ({ek:?}, {ev:?})\n  Actual: ({ak:?}, {av:?})\n  Full expected: {expected:?}\n  Full actual: {actual:?}"
+            );
+            used[found.unwrap()] = true;
+        }
+        start = end;
     }
 }
 
